@@ -267,7 +267,25 @@ func c10Searches(tier string) []named {
 	// carries the earlier id): when it goes away nothing of it may survive
 	init5 := pick(l1, "s0 open", "s0 params", "s0 election (0,1)", "s0 op[ADD v4->1]", "s0 election (0,5)")
 	o5 := &Options{Letters: ls2, Sessions: 2, Checks: Checks{Disconnect: true}, Init: init5}
+	// ... and with four entries in EVERY table of the default instance: a Get of each single table abandoned after
+	// 0 / 1 responses (the producer is stopped inside that table's loop), then the state comparison and the write probe
+	var fill []OpT
+	for _, e := range []string{"ADD nh1", "ADD nh2", "ADD nh3", "ADD nh4", "ADD nhg1{1}", "ADD nhg2{2}", "ADD nhg3{3}", "ADD nhg4{4}",
+		"ADD v4->1", "ADD v4b->2", "ADD v4c->3", "ADD v4d->4", "ADD v6a->1", "ADD v6b->2", "ADD v6c->3", "ADD v6d->4",
+		"ADD mpls100->1", "ADD mpls101->2", "ADD mpls102->3", "ADD mpls103->4"} {
+		fill = append(fill, OpT{entry(e), stOwn})
+	}
+	init6 := append(pick(l1, "s0 open", "s0 params", "s0 election (0,1)"), Letter{Name: "s0 ops[four entries per table]", K: kOps, S: 0, Ops: fill})
+	var ls6 []Letter
+	for _, aft := range []spb.AFTType{spb.AFTType_IPV4, spb.AFTType_IPV6, spb.AFTType_MPLS, spb.AFTType_NEXTHOP_GROUP, spb.AFTType_NEXTHOP, spb.AFTType_ALL} {
+		for _, k := range []int{0, 1} {
+			ls6 = append(ls6, Letter{Name: fmt.Sprintf("get(DEFAULT,%s) abandoned after %d responses (cancel)", aft, k), K: kGet, GetNI: D, GetK: k, GetAFT: aft, Code: codes.Canceled})
+		}
+	}
+	ls6 = append(ls6, pick(l1, "s0 op[ADD nh1]", "s0 half-close")...)
+	o6 := &Options{Letters: ls6, Sessions: 1, Checks: Checks{Disconnect: true}, Init: init6}
 	return []named{
+		{"faults/1-session/from-every-table-populated/get-of-each-table-abandoned", o6, 2},
 		{fmt.Sprintf("faults/%d-sessions/from-empty", n), o, depth},
 		{"faults/2-sessions/from-chain-installed", o2, depth - 3},
 		{"faults/1-session/from-both-instances-populated", o3, depth - 3},
@@ -279,7 +297,7 @@ func c10Searches(tier string) []named {
 // RunC10 decides C10.
 func RunC10(rep *report.Report, tier string) {
 	ss := c10Searches(tier)
-	rep.Set("alphabet", Names(ss[1].o.Letters))
+	rep.Set("alphabet", Names(ss[2].o.Letters))
 	rep.Set("rule", "cases are (history, letter) pairs executed on a fresh real server, histories being the shortest representatives of the distinct canonical server states; non-trivial = the letter is a fault (half-close, cancel, transport failure, request cut right after sending, Get abandoned after k responses), each followed by the state comparison and the liveness probe")
 	runSharded(rep, "C10", tier, ribhist.Budget(tier, 100*time.Second, 20*time.Minute))
 }
